@@ -76,17 +76,17 @@ theorem extPacket_valid (toc : Nat) (frames : List Bytes) (hok : FramesOk toc fr
     simp only [extPad, Pad.total, List.length_append, List.length_replicate]
     omega
 
-/-- `emit` with extensions (no repeats): `BUFFER_TOO_SMALL`, or the serialisation of `extPacket`. -/
+/-- `emit` with extensions (`B` = the generator's bytes): `BUFFER_TOO_SMALL`, or the serialisation of `extPacket`. -/
 theorem emit_ext_spec (toc : Nat) (frames : List Bytes) (hne : frames ≠ []) (hn48 : frames.length ≤ 48)
-    (all : Array Ext) (hpos : 0 < all.size) (hv : AllValid all frames.length) (hnr : NoRepeat all frames.length)
+    (all : Array Ext) (hpos : 0 < all.size) (B : Bytes) (hG : GenBytes all frames.length B)
     (maxlen : Int) (sd pad : Bool) :
     emit toc frames maxlen sd pad all =
-      let L := (extSer all frames.length).length
+      let L := B.length
       let tot := tot3 (frames.map List.length) (sdSize sd ((frames.map List.length).getLastD 0))
       let amount := extAmount maxlen tot pad L
       if tot > maxlen ∨ maxlen - tot < L ∨ tot + L + (amount - 1) / 255 + 1 > maxlen then .err .bufferTooSmall
-      else .ok (serialize sd (extPacket toc frames amount (extSer all frames.length))) := by
-  rw [emit_ext toc frames hne maxlen sd pad all hpos, code3_ext toc frames hne hn48 all hpos hv hnr]
+      else .ok (serialize sd (extPacket toc frames amount B)) := by
+  rw [emit_ext toc frames hne maxlen sd pad all hpos, code3_ext toc frames hne hn48 all hpos B hG]
   simp only []
   split
   · rfl
@@ -228,7 +228,79 @@ theorem padding_of_serialize (sd : Bool) (p : Packet) (rest : Bytes) :
   have : serialize sd p ++ rest = (header sd p ++ p.frames.flatten) ++ (padBytes p ++ rest) := by simp [serialize]
   rw [this, ← List.length_append, List.drop_left, List.take_left]
 
-/-- `out_range_impl` with extensions (no repeats), assembled. -/
+/-- The caller's valid extensions together with the gathered ones are valid generator input. -/
+theorem all_valid (rp : Rp) (hp : PadsOk rp.pads) (b e : Nat) (exts : Array Ext) (hvx : AllValid exts (e - b)) :
+    AllValid (exts ++ (gathered (rp.pads.take e) 0 b e).toArray) (e - b) := by
+  apply allValid_of_all
+  intro x hx
+  simp only [Array.toList_append, List.mem_append] at hx
+  rcases hx with hx | hx
+  · obtain ⟨j, hj⟩ := List.mem_iff_getElem?.mp hx
+    exact hvx j x (by simpa using hj)
+  · exact gathered_valid _ (fun pn h => hp pn (List.mem_of_mem_take h)) 0 b e x (by simpa using hx)
+
+/-- `out_range_impl` with extensions, assembled, for whatever bytes `B` the generator writes. -/
+theorem outRangeImpl_ext_gen (rp : Rp) (hinv : Inv rp) (hp : PadsOk rp.pads) (b e : Nat) (hb : b < e) (he : e ≤ rp.nbFrames)
+    (exts : Array Ext)
+    (hpos : 0 < (exts ++ (gathered (rp.pads.take e) 0 b e).toArray).size)
+    (B : Bytes) (hG : GenBytes (exts ++ (gathered (rp.pads.take e) 0 b e).toArray) (e - b) B)
+    (maxlen : Int) (sd pad : Bool) (bs : Bytes) (h : outRangeImpl rp b e maxlen sd pad exts = .ok bs) :
+    ∃ (p : Packet) (k : Nat), Valid p ∧ bs = serialize sd p ∧ p.frames = selFrames rp b e ∧ p.toc / 4 = rp.toc / 4 ∧
+      padBytes p = List.replicate k 1 ++ B ∧ (pad = false → k = 0) ∧
+      (bs.length : Int) ≤ maxlen ∧ (pad = true → (bs.length : Int) = maxlen) := by
+  obtain ⟨hok, hlen⟩ := selFrames_ok rp hinv b e hb he
+  have hn48 : (selFrames rp b e).length ≤ 48 := by rw [hlen]; have := hinv.nb_le; omega
+  rw [outRangeImpl_gather rp hp b e hb he] at h
+  rw [← hlen] at hG
+  rw [emit_ext_spec rp.toc _ hok.ne hn48 _ hpos B hG] at h
+  simp only [] at h
+  split at h
+  · simp at h
+  · rename_i hfit
+    simp only [Res.ok.injEq] at h
+    have hLpos := hG.pos
+    have hfacts : ∀ (tot : Int) (L : Nat), 0 < L →
+        ¬ (tot > maxlen ∨ maxlen - tot < L ∨ tot + L + (extAmount maxlen tot pad L - 1) / 255 + 1 > maxlen) →
+        1 ≤ extAmount maxlen tot pad L ∧
+        0 ≤ extAmount maxlen tot pad L - (L : Int) - (extAmount maxlen tot pad L - 1) / 255 - 1 ∧
+        tot + extAmount maxlen tot pad L ≤ maxlen ∧ (pad = true → tot + extAmount maxlen tot pad L = maxlen) ∧
+        (pad = false → (extAmount maxlen tot pad L - (L : Int) - (extAmount maxlen tot pad L - 1) / 255 - 1).toNat = 0) := by
+      intro tot L hL hf
+      cases pad
+      · simp only [extAmount, Bool.false_eq_true, if_false] at hf ⊢
+        refine ⟨by omega, by omega, by omega, ?_, ?_⟩
+        · intro h; first | exact h.elim | cases h
+        · intro _; omega
+      · simp only [extAmount, if_true] at hf ⊢
+        refine ⟨by omega, by omega, by omega, ?_, ?_⟩
+        · intro _; omega
+        · intro h; first | exact h.elim | cases h
+    obtain ⟨ham1, ham2, hle, hpadlen, hk0⟩ := hfacts _ _ hLpos hfit
+    have hl := extPacket_len rp.toc (selFrames rp b e) hok.ne _ _ sd ham1 ham2
+    refine ⟨_, _, extPacket_valid rp.toc _ hok _ _ ham1 ham2, h.symm, rfl, ?_, extPacket_padBytes _ _ _ _, hk0, ?_, ?_⟩
+    · show (rp.toc / 4 * 4 + 3) / 4 = rp.toc / 4; omega
+    · rw [← h, hl]; exact hle
+    · intro hpd; rw [← h, hl]; exact hpadlen hpd
+
+/-- `out_range_impl` with extensions as an equation (size clause, examples). -/
+theorem outRangeImpl_ext_eq_gen (rp : Rp) (hinv : Inv rp) (hp : PadsOk rp.pads) (b e : Nat) (hb : b < e) (he : e ≤ rp.nbFrames)
+    (exts : Array Ext)
+    (hpos : 0 < (exts ++ (gathered (rp.pads.take e) 0 b e).toArray).size)
+    (B : Bytes) (hG : GenBytes (exts ++ (gathered (rp.pads.take e) 0 b e).toArray) (e - b) B)
+    (maxlen : Int) (sd pad : Bool) :
+    outRangeImpl rp b e maxlen sd pad exts =
+      let L := B.length
+      let tot := tot3 ((selFrames rp b e).map List.length) (sdSize sd (((selFrames rp b e).map List.length).getLastD 0))
+      let amount := extAmount maxlen tot pad L
+      if tot > maxlen ∨ maxlen - tot < L ∨ tot + L + (amount - 1) / 255 + 1 > maxlen then .err .bufferTooSmall
+      else .ok (serialize sd (extPacket rp.toc (selFrames rp b e) amount B)) := by
+  obtain ⟨hok, hlen⟩ := selFrames_ok rp hinv b e hb he
+  have hn48 : (selFrames rp b e).length ≤ 48 := by rw [hlen]; have := hinv.nb_le; omega
+  rw [outRangeImpl_gather rp hp b e hb he]
+  rw [← hlen] at hG
+  rw [emit_ext_spec rp.toc _ hok.ne hn48 _ hpos B hG]
+
+/-- The `NoRepeat` instance. -/
 theorem outRangeImpl_ext (rp : Rp) (hinv : Inv rp) (hp : PadsOk rp.pads) (b e : Nat) (hb : b < e) (he : e ≤ rp.nbFrames)
     (exts : Array Ext) (hvx : AllValid exts (e - b))
     (hpos : 0 < (exts ++ (gathered (rp.pads.take e) 0 b e).toArray).size)
@@ -238,52 +310,12 @@ theorem outRangeImpl_ext (rp : Rp) (hinv : Inv rp) (hp : PadsOk rp.pads) (b e : 
       padBytes p = List.replicate k 1 ++ extSer (exts ++ (gathered (rp.pads.take e) 0 b e).toArray) (e - b) ∧
       AllValid (exts ++ (gathered (rp.pads.take e) 0 b e).toArray) (e - b) ∧
       (bs.length : Int) ≤ maxlen ∧ (pad = true → (bs.length : Int) = maxlen) := by
-  obtain ⟨hok, hlen⟩ := selFrames_ok rp hinv b e hb he
-  have hn48 : (selFrames rp b e).length ≤ 48 := by rw [hlen]; have := hinv.nb_le; omega
-  have hv : AllValid (exts ++ (gathered (rp.pads.take e) 0 b e).toArray) (e - b) := by
-    apply allValid_of_all
-    intro x hx
-    simp only [Array.toList_append, List.mem_append] at hx
-    rcases hx with hx | hx
-    · obtain ⟨j, hj⟩ := List.mem_iff_getElem?.mp hx
-      exact hvx j x (by simpa using hj)
-    · exact gathered_valid _ (fun pn h => hp pn (List.mem_of_mem_take h)) 0 b e x (by simpa using hx)
-  rw [outRangeImpl_gather rp hp b e hb he] at h
-  rw [← hlen] at hv hnr
-  rw [emit_ext_spec rp.toc _ hok.ne hn48 _ hpos hv hnr] at h
-  simp only [] at h
-  split at h
-  · simp at h
-  · rename_i hfit
-    simp only [Res.ok.injEq] at h
-    have hLpos := extSer_pos _ _ hv hpos
-    have hfacts : ∀ (tot : Int) (L : Nat), 0 < L →
-        ¬ (tot > maxlen ∨ maxlen - tot < L ∨ tot + L + (extAmount maxlen tot pad L - 1) / 255 + 1 > maxlen) →
-        1 ≤ extAmount maxlen tot pad L ∧
-        0 ≤ extAmount maxlen tot pad L - (L : Int) - (extAmount maxlen tot pad L - 1) / 255 - 1 ∧
-        tot + extAmount maxlen tot pad L ≤ maxlen ∧ (pad = true → tot + extAmount maxlen tot pad L = maxlen) := by
-      intro tot L hL hf
-      cases pad
-      · simp only [extAmount, Bool.false_eq_true, if_false] at hf ⊢
-        refine ⟨by omega, by omega, by omega, by intro h; cases h⟩
-      · simp only [extAmount, if_true] at hf ⊢
-        refine ⟨by omega, by omega, by omega, by intro _; omega⟩
-    obtain ⟨ham1, ham2, hle, hpadlen⟩ := hfacts _ _ hLpos hfit
-    have hl := extPacket_len rp.toc (selFrames rp b e) hok.ne _ _ sd ham1 ham2
-    obtain ⟨k, hk⟩ : ∃ k, padBytes (extPacket rp.toc (selFrames rp b e)
-        (extAmount maxlen (tot3 ((selFrames rp b e).map List.length)
-          (sdSize sd (((selFrames rp b e).map List.length).getLastD 0))) pad
-          (extSer (exts ++ (gathered (rp.pads.take e) 0 b e).toArray) (selFrames rp b e).length).length)
-        (extSer (exts ++ (gathered (rp.pads.take e) 0 b e).toArray) (selFrames rp b e).length)) =
-        List.replicate k 1 ++ extSer (exts ++ (gathered (rp.pads.take e) 0 b e).toArray) (e - b) :=
-      ⟨_, by rw [extPacket_padBytes, hlen]⟩
-    refine ⟨_, k, extPacket_valid rp.toc _ hok _ _ ham1 ham2, h.symm, rfl, ?_, hk, ?_, ?_, ?_⟩
-    · show (rp.toc / 4 * 4 + 3) / 4 = rp.toc / 4; omega
-    · rw [hlen] at hv; exact hv
-    · rw [← h, hl]; exact hle
-    · intro hpd; rw [← h, hl]; exact hpadlen hpd
+  have hv := all_valid rp hp b e exts hvx
+  have hn48 : e - b ≤ 48 := by have := hinv.nb_le; omega
+  obtain ⟨p, k, h1, h2, h3, h4, h5, _, h7, h8⟩ := outRangeImpl_ext_gen rp hinv hp b e hb he exts hpos _
+    (genBytes_norep _ _ hn48 hv hnr hpos) maxlen sd pad bs h
+  exact ⟨p, k, h1, h2, h3, h4, h5, hv, h7, h8⟩
 
-/-- `out_range_impl` with extensions as an equation (used for the size clause and the examples). -/
 theorem outRangeImpl_ext_eq (rp : Rp) (hinv : Inv rp) (hp : PadsOk rp.pads) (b e : Nat) (hb : b < e) (he : e ≤ rp.nbFrames)
     (exts : Array Ext) (hvx : AllValid exts (e - b))
     (hpos : 0 < (exts ++ (gathered (rp.pads.take e) 0 b e).toArray).size)
@@ -296,19 +328,9 @@ theorem outRangeImpl_ext_eq (rp : Rp) (hinv : Inv rp) (hp : PadsOk rp.pads) (b e
       let amount := extAmount maxlen tot pad L
       if tot > maxlen ∨ maxlen - tot < L ∨ tot + L + (amount - 1) / 255 + 1 > maxlen then .err .bufferTooSmall
       else .ok (serialize sd (extPacket rp.toc (selFrames rp b e) amount (extSer all (e - b)))) := by
-  obtain ⟨hok, hlen⟩ := selFrames_ok rp hinv b e hb he
-  have hn48 : (selFrames rp b e).length ≤ 48 := by rw [hlen]; have := hinv.nb_le; omega
-  have hv : AllValid (exts ++ (gathered (rp.pads.take e) 0 b e).toArray) (e - b) := by
-    apply allValid_of_all
-    intro x hx
-    simp only [Array.toList_append, List.mem_append] at hx
-    rcases hx with hx | hx
-    · obtain ⟨j, hj⟩ := List.mem_iff_getElem?.mp hx
-      exact hvx j x (by simpa using hj)
-    · exact gathered_valid _ (fun pn h => hp pn (List.mem_of_mem_take h)) 0 b e x (by simpa using hx)
-  rw [outRangeImpl_gather rp hp b e hb he]
-  rw [← hlen] at hv hnr
-  rw [emit_ext_spec rp.toc _ hok.ne hn48 _ hpos hv hnr, hlen]
+  have hv := all_valid rp hp b e exts hvx
+  have hn48 : e - b ≤ 48 := by have := hinv.nb_le; omega
+  exact outRangeImpl_ext_eq_gen rp hinv hp b e hb he exts hpos _ (genBytes_norep _ _ hn48 hv hnr hpos) maxlen sd pad
 
 theorem padRefs_of_count_zero (p : Bytes) (nf : Nat) (h : Ext.count p p.length nf = .ok 0) : padRefs p nf = [] := by
   unfold padRefs
